@@ -6,9 +6,9 @@
     total length) are *not* part of the model: the correspondence check runs the implementation with the
     GWB_VERIF hook that switches them off, and property C07 (culling on = culling off) is checked
     separately.  Grains are not modelled for these features (quaternion interpolation between sections,
-    known finding D4): a grains request makes the model answer "not modelled". *)
+    known finding D4) are modelled with the quaternion routines of Quat.v. *)
 From Coq Require Import ZArith NArith List Bool.
-From WB Require Import Num Base Props World Kernels Features Bezier BezierSph SlabLayout SlabModel.
+From WB Require Import Num Base Props World Kernels Features Bezier BezierSph SlabLayout SlabModel Quat.
 Import ListNotations.
 
 Section SlabFeature.
@@ -28,6 +28,11 @@ Section SlabFeature.
        fault: min (unused), max (unused), side distance, center fractions, side fractions *)
 
   Inductive svel := SVUniformRaw (mn mx : F) (o : op) (v : F * F * F).
+
+  (** grains models: the area-feature models (Features.v) with the depth range replaced by a distance range *)
+  Inductive sgrains :=
+  | SGUniform (mn mx : F) (comps : list N) (mats : list (list F)) (sizes : list F)
+  | SGRandom (mn mx : F) (comps : list N) (sizes : list F) (normalize : list bool) (defl : option (list F * list (list F))).
 
   Definition in_dist (mn mx x : F) : bool := (x <=? mx) && (mn <=? x).
 
@@ -94,11 +99,26 @@ Section SlabFeature.
         else old
     end.
 
+  (** a depth surface that contains every depth: the area-feature evaluator is reused for its body *)
+  Definition everywhere_lo : @dsurf F := {| ds_const := true; ds_min := - fdmax; ds_max := - fdmax; ds_tris := []; ds_nodes := [] |}.
+  Definition everywhere_hi : @dsurf F := {| ds_const := true; ds_min := fdmax; ds_max := fdmax; ds_tris := []; ds_nodes := [] |}.
+
+  Definition sgrains_eval (tape : nat -> F) (fault sph : bool) (q : @query F) (pd : @plane_distances F) (m : sgrains)
+             (c k : N) (st : list F * nat) : list F * nat :=
+    let d := pd_distance pd in
+    let dd := if fault then fabs d else d in
+    match m with
+    | SGUniform mn mx comps mats sizes =>
+        if in_dist mn mx dd then grains_eval tape sph q (GUniform everywhere_lo everywhere_hi comps mats sizes) c k st else st
+    | SGRandom mn mx comps sizes normalize defl =>
+        if in_dist mn mx dd then grains_eval tape sph q (GRandom everywhere_lo everywhere_hi comps sizes normalize defl) c k st else st
+    end.
+
   (** one resolved segment of one coordinate *)
   Record lseg := {
     ls_top : F; ls_bot : F; ls_len : F;          (* dips in radians, length *)
     ls_th0 : F; ls_th1 : F; ls_tr0 : F; ls_tr1 : F;
-    ls_temp : list stemp; ls_comp : list scomp; ls_vel : list svel
+    ls_temp : list stemp; ls_comp : list scomp; ls_vel : list svel; ls_grains : list sgrains
   }.
 
   Record line_feature := {
@@ -109,7 +129,7 @@ Section SlabFeature.
 
   Definition lseg_default : lseg :=
     {| ls_top := f0; ls_bot := f0; ls_len := f0; ls_th0 := f0; ls_th1 := f0; ls_tr0 := f0; ls_tr1 := f0;
-       ls_temp := []; ls_comp := []; ls_vel := [] |}.
+       ls_temp := []; ls_comp := []; ls_vel := []; ls_grains := [] |}.
 
   Definition lf_geom (lf : line_feature) : list (list (F * F * F)) :=
     map (map (fun s => (ls_top s, ls_bot s, ls_len s))) (lf_table lf).
@@ -162,7 +182,7 @@ Section SlabFeature.
     else false.
 
   (** painting one property block (only called when [lf_covers]) *)
-  Definition lf_paint (g : @globals F) (lf : line_feature) (q : @query F) (p : prop_req) (t : nat) (blk : list F) : list F * nat :=
+  Definition lf_paint (g : @globals F) (tape : nat -> F) (lf : line_feature) (q : @query F) (p : prop_req) (t : nat) (blk : list F) : list F * nat :=
     let pd := lf_distances lf q in
     let '(_, _, _, cur, nxt) := lf_local lf pd in
     let sf := pd_section_fraction pd in
@@ -178,7 +198,14 @@ Section SlabFeature.
         let a := fold_left (fun o m => scomp_eval fault pd m c o) (ls_comp cur) old in
         let b := fold_left (fun o m => scomp_eval fault pd m c o) (ls_comp nxt) old in
         ([section_interp a b sf], t)
-    | PGrains _ _ => (blk, t)      (* not modelled, see [lf_paint_unmodelled] *)
+    | PGrains c k =>
+        (* both sections start from the values painted so far; the draws of the current section come first *)
+        let kk := N.to_nat k in
+        let '(bc, t1) := fold_left (fun st m => sgrains_eval tape fault (lf_sph lf) q pd m c k st) (ls_grains cur) (blk, t) in
+        let '(bn, t2) := fold_left (fun st m => sgrains_eval tape fault (lf_sph lf) q pd m c k st) (ls_grains nxt) (blk, t1) in
+        let sizes := map (fun i => section_interp (nth i bc f0) (nth i bn f0) sf) (seq 0 kk) in
+        let mats := map (fun i => average_rotation (slice (kk + 9 * i) 9 bc) (slice (kk + 9 * i) 9 bn) sf) (seq 0 kk) in
+        (sizes ++ concat mats, t2)
     | PTag => ([lf_tag lf], t)
     | PVel =>
         (* subducting_plate.cc:754 / fault.cc:721: the third start value is output[entry] + 2 (known finding D3) *)
@@ -189,18 +216,18 @@ Section SlabFeature.
     end.
 
   (** requests the model does not cover for these features *)
-  Definition lf_paint_unmodelled (p : prop_req) : bool := match p with PGrains _ _ => true | _ => false end.
+  Definition lf_paint_unmodelled (p : prop_req) : bool := false.
 
-  Definition line_to_feature (g : @globals F) (lf : line_feature) : @feature F :=
+  Definition line_to_feature (g : @globals F) (tape : nat -> F) (lf : line_feature) : @feature F :=
     {| ft_covers := lf_covers lf;
        ft_cov_err := fun _ => false;
        ft_paint_err := fun _ p => lf_paint_unmodelled p;
-       ft_paint := lf_paint g lf;
+       ft_paint := lf_paint g tape lf;
        ft_tag := lf_tag lf |}.
 
   (** ** from the layout of the parameter file (SlabLayout.v) to the per-coordinate table *)
   Inductive mkind := KTemp | KComp | KGrains | KVel.
-  Inductive mlist_ := MTemp (l : list stemp) | MComp (l : list scomp) | MGrains | MVel (l : list svel).
+  Inductive mlist_ := MTemp (l : list stemp) | MComp (l : list scomp) | MGrains (l : list sgrains) | MVel (l : list svel).
   Record sgeom := { sg_top : F; sg_bot : F; sg_len : F; sg_th0 : F; sg_th1 : F; sg_tr0 : F; sg_tr1 : F }.
 
   Definition lseg_of (r : sgeom * (mkind -> option mlist_)) : lseg :=
@@ -209,7 +236,8 @@ Section SlabFeature.
        ls_th0 := sg_th0 gm; ls_th1 := sg_th1 gm; ls_tr0 := sg_tr0 gm; ls_tr1 := sg_tr1 gm;
        ls_temp := match ms KTemp with Some (MTemp l) => l | _ => [] end;
        ls_comp := match ms KComp with Some (MComp l) => l | _ => [] end;
-       ls_vel := match ms KVel with Some (MVel l) => l | _ => [] end |}.
+       ls_vel := match ms KVel with Some (MVel l) => l | _ => [] end;
+       ls_grains := match ms KGrains with Some (MGrains l) => l | _ => [] end |}.
 
   Definition table_of_layout (L : layout mkind mlist_ sgeom) : list (list lseg) := map (map lseg_of) (table L).
 
